@@ -54,6 +54,17 @@ def _expr(e: ast.AST, bools: set) -> str:
 
 
 def _cond(e: ast.AST, bools: set) -> str:
+    if _RENAME and isinstance(e, ast.Compare) and len(e.ops) == 1 and isinstance(e.comparators[0], ast.Constant) and isinstance(e.comparators[0].value, str) \
+            and isinstance(e.ops[0], (ast.Eq, ast.NotEq)):
+        # a test against a string literal (`method == "PM6"`): the equality is a renamed Int flag, `!=` its negation
+        key = f"{ast.unparse(e.left)} == {e.comparators[0].value!r}"
+        if key in _RENAME:
+            base = f"({_RENAME[key]} ≠ 0)"
+            return base if isinstance(e.ops[0], ast.Eq) else f"(¬ {base})"
+    if isinstance(e, ast.BinOp) and isinstance(e.op, (ast.BitAnd, ast.BitOr)):
+        # element-wise tensor masks `(a > 1) & (a <= 12)`: per element these are the propositional connectives
+        j = " ∧ " if isinstance(e.op, ast.BitAnd) else " ∨ "
+        return "(" + _cond(e.left, bools) + j + _cond(e.right, bools) + ")"
     if isinstance(e, ast.Compare) and len(e.ops) == 1:
         a, b = _expr(e.left, bools), _expr(e.comparators[0], bools)
         op = {ast.Lt: "<", ast.LtE: "≤", ast.Gt: ">", ast.GtE: "≥", ast.Eq: "=", ast.NotEq: "≠"}.get(type(e.ops[0]))
